@@ -55,5 +55,27 @@ claim("C09", "other",
       ASSUME + " crypto/tls does chain and expiry validation; an application-supplied tls.Config replaces the generated one.",
       "constant/config-literal evaluation + path automaton with phi-edge pruning + value provenance on SSA", "DESIGN.md 4 C09")
 
+
+claim("C13", "other",
+      "Static scope/ownership rules: a fresh Conn allocation per accepted socket with default state; the same connection value is passed along every hop of the dispatch chain; functions reachable from the request handler store only into locals, the connection, or the enumerated shared state (Config.params) — no server field, package variable, cross-connection captured variable or pooled object; the database id and the authorisation flag are written only by their constructor/setter/handler on their own connection, never on a path that then fails; accessors read their receiver only; nothing reachable from the lifecycle/registry API mutates per-connection state. Decides 'state kept in the wrong scope' for all interleavings at once (a scope fact, not a schedule fact).",
+      ASSUME + " Applications do not mutate *Conn values obtained from Server.Conns(); memory-model visibility is C14.",
+      "who-may-write tables + effect-scope classification of stores + value identity on SSA", "DESIGN.md 4 C13")
+claim("C14", "other",
+      "Static race detection by must-locksets (Eraser discipline decided statically): for every field of the server-wide structs and of Conn, every write and every other access that can run in concurrently executing roots (connection/accept goroutines among themselves and against Stop/Restart/Start/registry queries; Conn: owner against a root reaching it through the registry) hold a common mutex, exclusively at the write, with map/slice contents attributed to their field; every lock is released on every path; lock order is acyclic; no lock is held across a blocking transport call. Sufficient for race freedom on those fields because mutexes are the only synchronisation in the framework (checked).",
+      ASSUME + " No go/pointer analysis: aliasing by struct type + field; application handlers and the example store are outside (C16).",
+      "static must-lockset analysis (path automaton on SSA + call-graph root reachability)", "DESIGN.md 4 C14")
+claim("C15", "other",
+      "Static lifecycle rules: listener fields written only from the lifecycle API; accept loops receive their listener as a parameter and close only that value; Stop closes listeners before synchronously sweeping every registered connection; the registry is written only by constructor/AddConn/RemoveConn and AddConn/RemoveConn bracket the connection loop; every goroutine the framework starts must be joined by Stop — violated today at the four go statements and recorded as known findings (no join exists). Necessary conditions named in the property's own anchors; scheduling itself is not explored.",
+      ASSUME + " Known findings: R15.d x4 (no join).",
+      "who-may-write tables + path automaton (ordering) + structural join check on SSA", "DESIGN.md 4 C15")
+claim("C16", "other",
+      "Narrow claim: the one structural necessary condition of linearizability — a command making more than one handler call, and an example-store handler path making more than one step on shared store state, must run inside a common critical section. No such lock exists in the unchanged tree; the 10 derived commands and 21 handler path-sets that violate it today are recorded known findings keyed by command / handler path signature, so a NEW non-atomic composite (or a changed path signature) is still reported. Linearizability itself is not decided.",
+      ASSUME + " Known findings: R16.a x10, R16.b x21.",
+      "handler-call counting by path automaton with callee summaries + store-operation path signatures on SSA", "DESIGN.md 4 C16")
+claim("C17", "other",
+      "Static taint/ownership rules: the string compiled inside redis/glob is built only from constants and regexp.QuoteMeta results (a flow of the pattern bypassing QuoteMeta is reported; the constant skeleton is compiled with regexp/syntax at analysis time, so compiling cannot fail); no raw regexp compilation of non-constant patterns outside redis/glob, and in KEYS and SCAN MATCH the client's pattern flows only into glob.Compile (one interpreter, so they agree); skeleton anchored with ^...$ and '*'->'.*', '?'->'.'; MustCompile only on constants. Given these, equality with a reference glob matcher is a property of package regexp.",
+      ASSUME,
+      "taint-to-sink with sanitiser (QuoteMeta) on SSA + who-may-call + constant evaluation", "DESIGN.md 4 C17")
+
 for _k in list(CLAIMS):
     NA.pop(_k, None)
